@@ -67,6 +67,10 @@ func (e *Engine) verifyFunction(fc *FuncContract) *FnResult {
 		res.Undecided = append(res.Undecided, "no body: "+fc.Key)
 		return res
 	}
+	c.entryArgs = map[int]Value{}
+	for i, a := range args {
+		c.entryArgs[i] = a
+	}
 	fr := c.pushFrame(s, fn, args, binds)
 	c.collectWitness(s, fn, args)
 	env := c.fnEnv(s, fn, fr, args)
@@ -75,7 +79,20 @@ func (e *Engine) verifyFunction(fc *FuncContract) *FnResult {
 		c.reportEvalErrors(env, fc, rq.Src)
 		s.assume(g)
 	}
+	for _, h := range fc.Holds {
+		if key, base, ok := env.lockOf(h.Expr); ok {
+			s.locks = append(s.locks, LockHeld{Key: key, Base: base, Write: true, Level: c.eng.contracts.lockLevels[key]})
+			s.seq++
+			s.trace = append(s.trace, Event{Name: "lock:" + key, Args: []Value{Sc{T: base}}, PC: len(s.pc), Seq: s.seq})
+		} else {
+			c.unsupported("holds clause: " + h.Src)
+		}
+	}
 	fr.entry = s.snapshot()
+	if len(fc.Holds) > 0 {
+		s.atLock = fr.entry
+		fc.Goroutine = fc.Goroutine // (locks held on entry are still held on return)
+	}
 	// vacuity: the precondition set must be satisfiable
 	if len(fc.Requires) > 0 {
 		c.obls = append(c.obls, &Obligation{Name: fc.Key + "/cover:requires", Fn: fc.Key, Kind: "cover", Assume: append([]Term(nil), s.pc...), Goal: False, Props: fc.Props, Note: "vacuity guard: preconditions must be satisfiable (expected sat)", decls: c.d})
@@ -175,7 +192,7 @@ func (c *Ctx) checkReturn(rp retPath, fc *FuncContract, fn *ssa.Function, args [
 		c.oblige(s, "ensures", fmt.Sprintf("%s/ensures[%s]", fc.Key, label), g, "", "postcondition: "+en.Src, props)
 	}
 	// locks must not leak out of a function unless its contract says so
-	if len(s.locks) > 0 && !fc.Goroutine {
+	if len(s.locks) > len(fc.Holds) && !fc.Goroutine {
 		var ks []string
 		for _, l := range s.locks {
 			ks = append(ks, l.Key)
@@ -268,6 +285,26 @@ func (c *Ctx) checkTraces(s *State, env *Env, fc *FuncContract, trace []Event, l
 		props := tr.Props
 		if len(props) == 0 {
 			props = fc.Props
+		}
+		if tr.Kind == "each" {
+			n := 0
+			for _, ev := range trace {
+				if !matchEvent(tr.A, ev.Name) {
+					continue
+				}
+				n++
+				ce := env.child()
+				c.bindEvent(ce, ev)
+				g := ce.evalBool(tr.Cond)
+				for _, er := range ce.errs[len(env.errs):] {
+					c.unsupported(fmt.Sprintf("trace rule of %s: %s (in %q)", fc.Key, er, tr.Src))
+				}
+				c.oblige(s, "trace", name, g, ev.Pos, "every "+tr.A+" event must satisfy: "+tr.Src, props)
+			}
+			if n == 0 {
+				c.oblige(s, "trace", name, True, "", "trace rule `"+tr.Src+"` (no such event on this path)", props)
+			}
+			continue
 		}
 		cond := True
 		if tr.Cond != nil {
@@ -367,6 +404,46 @@ func (c *Ctx) collectWitness(s *State, fn *ssa.Function, args []Value) {
 	for i, p := range fn.Params {
 		if i < len(args) {
 			rec(p.Name(), args[i], p.Type(), 0)
+		}
+	}
+}
+
+// bindEvent exposes the operands of a trace event to a contract expression.
+func (c *Ctx) bindEvent(env *Env, ev Event) {
+	anyT := types.NewInterfaceType(nil, nil)
+	typeOf := func(v Value) types.Type {
+		switch x := v.(type) {
+		case If:
+			return anyT
+		case St:
+			return x.Typ
+		case Sl:
+			return types.NewSlice(types.Typ[types.Uint8])
+		case Sc:
+			switch x.T.Sort {
+			case SStr:
+				return types.Typ[types.String]
+			case SBool:
+				return types.Typ[types.Bool]
+			case SInt:
+				return types.Typ[types.Int]
+			}
+		}
+		return nil
+	}
+	if ev.Recv != nil {
+		env.vars["$recv"] = tv{ev.Recv, typeOf(ev.Recv)}
+	}
+	for i, a := range ev.Args {
+		env.vars[fmt.Sprintf("$arg%d", i)] = tv{a, typeOf(a)}
+	}
+	if ev.Res != nil {
+		if tu, ok := ev.Res.(Tu); ok {
+			for i, r := range tu.E {
+				env.vars[fmt.Sprintf("$res%d", i)] = tv{r, typeOf(r)}
+			}
+		} else {
+			env.vars["$res0"] = tv{ev.Res, typeOf(ev.Res)}
 		}
 	}
 }
